@@ -8,6 +8,15 @@ PID = "C05"
 LEVEL = "other"
 CRATES = ["rlib_dsu"]
 RELEASE = True
+ARMED = True
+ENGINES = ["E1", "E3", "E4a"]
+TECHNIQUE = "path-sensitive term-flow abstract interpretation of MIR + difference-bound entailment of size[x] <= size[y] at the link store; who-may-write and index-provenance rules"
+LEVEL_TEXT = (
+    "Structural necessary conditions of the property decided on every path of every DSU method in both build profiles "
+    "(union-by-size as an entailed relational fact, size bookkeeping, return value, reset coverage, find shape, who-may-write). "
+    "It does not decide the connectivity relation over histories; the log2 depth bound follows from D1+D2 by the classical theorem."
+)
+LEVEL_NOTE = "trusted: rustc MIR construction, the exporter, the std axiom table (Vec index, mem::swap, Range iteration); assumes no usize overflow of sizes"
 EXPLANATION = (
     "Static rules over the MIR of rlib_dsu, decided on every path of every DSU method: D1 at the store "
     "parent[x]=y in `un` the branch facts of the path entail size[x] <= size[y] (difference-bound closure; "
